@@ -15,7 +15,7 @@ from ..common import lib, call, LibRaised, sha, EngineError
 from ..engine.acc import Acc
 
 ID = "C18"
-ENGINE_NAME = "E3 history lattice (scripted monitored values)"
+ENGINE_NAME = "E3 history lattice (scripted monitored values) + E4 TLC bridge (EarlyStop.tla)"
 RULE = ("one evaluation = one scripted run (value sequence, patience, evaluator period, stopper period, criterion, tolerance, "
         "evaluator kind, drive mode) on the real EarlyStopping + evaluator callbacks, compared with the reference decision "
         "procedure; non-trivial = at least patience+1 evaluations happen; distinct = distinct parameter tuple")
@@ -58,7 +58,76 @@ def plan(tier, seed):
             for kind in ("metric", "obs"):
                 items.append(dict(L=L, first_index=first, kind=kind, vals="nan", pmax=2, fit=(L == 2)))
     items.append(dict(layer="constructor"))
+    for cs in tlc_sets(tier):
+        items.append(dict(layer="tlc", **cs))
     return items
+
+
+TLC_INVARIANTS = ["TypeOK", "StopsOnlyAtCheckedEpochs", "NeverBeforeEnoughEvaluations", "NeverComparesWithItself", "RuleMetWhenStopped"]
+
+
+def tlc_sets(tier):
+    base = [dict(Vals=[0, 1, 3], MaxEpoch=4, PE=1, PS=1, PAT=1, TOL=2), dict(Vals=[0, 1, 3], MaxEpoch=6, PE=2, PS=3, PAT=1, TOL=2),
+            dict(Vals=[0, 2, 5], MaxEpoch=5, PE=1, PS=2, PAT=2, TOL=3), dict(Vals=[0, 1, 3], MaxEpoch=6, PE=3, PS=2, PAT=1, TOL=1)]
+    if tier == "thorough":
+        base += [dict(Vals=[0, 1, 2, 4], MaxEpoch=5, PE=1, PS=1, PAT=3, TOL=2), dict(Vals=[0, 1, 3], MaxEpoch=8, PE=2, PS=1, PAT=2, TOL=2),
+                 dict(Vals=[0, 3, 4], MaxEpoch=6, PE=1, PS=3, PAT=1, TOL=4), dict(Vals=[0, 5], MaxEpoch=7, PE=1, PS=1, PAT=5, TOL=1)]
+    return base
+
+
+def run_tlc_item(acc, item):
+    """E4: TLC enumerates every value sequence of the TLA+ model of the rule; every complete behaviour is
+    replayed on the real callbacks (model -> code) and every run of the real callbacks over the same
+    alphabet must be a model behaviour (code -> model)"""
+    from ..engine import tlc as TLC
+    import itertools as it
+    cs = {k: item[k] for k in ("Vals", "MaxEpoch", "PE", "PS", "PAT", "TOL")}
+    consts = dict(cs, Vals="{" + ", ".join(str(v) for v in cs["Vals"]) + "}")
+    res = TLC.run_tlc("EarlyStop", consts, TLC_INVARIANTS)
+    term = [st_ for st_ in res["states"] if st_["stopped"] or st_["ep"] == cs["MaxEpoch"]]
+    if not term:
+        raise EngineError("TLC dump has no terminal states")
+    model = {(tuple(st_["evals"]), st_["stopAt"] if st_["stopped"] else None) for st_ in term}
+    acc.count("tlc_distinct_states", res["distinct"])
+    acc.count("tlc_complete_behaviours", len(model))
+    acc.states += res["distinct"]
+    acc.transitions += res["generated"]
+    need = cs["MaxEpoch"] // cs["PE"]
+    flagged = set()
+
+    def impl(seq, kind, through_fit):
+        sds = [1.0] * len(seq)
+        got, last, neps = run_impl([float(x) for x in seq], sds, cs["PE"], cs["PS"], cs["PAT"], "absolute", float(cs["TOL"]), cs["MaxEpoch"], kind, through_fit)
+        consumed = (got if got is not None else cs["MaxEpoch"]) // cs["PE"]
+        return (tuple(seq[:consumed]), got), last
+
+    # model -> code
+    for evals, stop in sorted(model, key=lambda m: (len(m[0]), m[0])):
+        seq = list(evals) + [cs["Vals"][0]] * (need - len(evals))
+        for kind, tf in (("metric", False), ("obs", False), ("metric", True)):
+            acc.ev(1, nontrivial=stop is not None)
+            acc.traces += 1
+            (obs, last) = impl(seq, kind, tf)
+            if obs != (tuple(evals), stop) or last != stop:
+                sig = "earlystop:callbacks-diverge-from-tlc-behaviour"
+                if sig not in flagged:
+                    flagged.add(sig)
+                    acc.viol(sig, dict(layer="tlc", constants=cs, evals=list(evals), kind=kind, through_fit=tf), observed=dict(consumed=list(obs[0]), stopped_at=obs[1], last_epoch=last),
+                             expected=dict(consumed=list(evals), stopped_at=stop))
+    acc.count("tlc_behaviours_replayed", len(model))
+    # code -> model
+    seen = set()
+    for seq in it.product(cs["Vals"], repeat=need):
+        obs, last = impl(list(seq), "metric", False)
+        seen.add(obs)
+        acc.ev(1)
+        if obs not in model and "earlystop:implementation-run-not-in-tlc-model" not in flagged:
+            flagged.add("earlystop:implementation-run-not-in-tlc-model")
+            acc.viol("earlystop:implementation-run-not-in-tlc-model", dict(layer="tlc", constants=cs, evals=list(seq), kind="metric", through_fit=False), observed=dict(consumed=list(obs[0]), stopped_at=obs[1]))
+    if seen != model and not flagged:
+        acc.viol("earlystop:trace-sets-differ", dict(layer="tlc", constants=cs), observed=len(seen), expected=len(model))
+    acc.outcome(sha([cs, len(model)]))
+    acc.sample(dict(layer="tlc", constants=cs, distinct_states=res["distinct"], complete_behaviours=len(model), example=[list(sorted(model, key=lambda m: -len(m[0]))[0][0]), sorted(model, key=lambda m: -len(m[0]))[0][1]]), cap=1)
 
 
 def ref_stop_epoch(means, variances, P_eval, P_stop, patience, crit, tol, epochs):
@@ -246,6 +315,10 @@ def run_item(item):
         run_constructor(acc)
         acc.states = acc.evaluations
         return acc
+    if item.get("layer") == "tlc":
+        with contextlib.redirect_stdout(io.StringIO()):
+            run_tlc_item(acc, item)
+        return acc
     L, kind, vals = item["L"], item["kind"], item["vals"]
     flagged = set()
     if vals == "nan":
@@ -273,6 +346,10 @@ def run_item(item):
 
 def replay(case):
     acc = Acc()
+    if case.get("layer") == "tlc":
+        with contextlib.redirect_stdout(io.StringIO()):
+            run_tlc_item(acc, dict(layer="tlc", **case["constants"]))
+        return acc
     if "seq" not in case:
         run_constructor(acc)
         return acc
